@@ -217,7 +217,7 @@ fn gen_cases(ctx: &Ctx) -> Vec<Case> {
             layout: Some((7, 1 + k % 3)),
         });
     }
-    let n = ctx.budget("cases", 1000, 20000);
+    let n = ctx.budget("cases", 2000, 20000);
     let mut rng = Rng::new(ctx.seed, 0xC07, 0);
     for i in 0..n {
         let mut o = GenOpts::default();
@@ -736,7 +736,22 @@ fn run_case(ctx: &Ctx, idx: u64, c: &Case) -> CaseOut {
             return o;
         }
         WriteOutcome::Panicked(p) => {
-            o.count(&format!("writer_panics[{}]", p.sig), 1);
+            // the stream classes that are known to make the writer panic (from the descriptions)
+            let why = if s.reads.iter().any(|r| !r.is_unmapped() && r.bases.is_empty()) {
+                "stream has a mapped record with CIGAR but without bases: "
+            } else if s.reads.iter().any(|r| r.is_unmapped() && r.pos.is_some() && r.pos.unwrap() + r.bases.len() - 1 > s.refs[r.ref_id.unwrap()].seq.len()) {
+                "stream has a placed unmapped record whose bases run past the reference end: "
+            } else if emap::encoder_for(&c.emap, 4, 28) == "fqz" && s.reads.iter().any(|r| r.features.read_base > 0 || r.quals.is_empty()) {
+                "fqzcomp with read-base features or a record without qualities: "
+            } else if s.reads.iter().any(|r| !r.is_unmapped() && r.quals.is_empty()) {
+                "stream has a mapped record without qualities: "
+            } else {
+                ""
+            };
+            if why.is_empty() && std::env::var_os("C07_DEBUG_PANICS").is_some() {
+                eprintln!("UNEXPLAINED WRITER PANIC {} :: {} :: {}", p.sig, case_json(c), s.to_json());
+            }
+            o.count(&format!("writer_panics[{why}{}]", p.sig), 1);
             o.count(&format!("writer_panicked_with_encoder_map[{}]", c.emap), 1);
             o.count("files_writer_panicked", 1);
             return o;
@@ -850,6 +865,8 @@ fn main() {
         "a record written without a name is not compared on its name (CRAM regenerates names)",
         "aux values are compared with their exact type incl. integer subtypes c/C/s/S/i/I (CRAM keys tag series by tag+type; observed to be preserved), floats bit by bit; MD/NM are ordinary tags to noodles (neither stripped nor regenerated)",
         "mapped records always carry a CIGAR whose read length equals the number of bases; fqzcomp is only assigned to the quality-score series and the name tokenizer only to the read-name series",
+        "a failed round trip is attributed to a block codec (signature block-codec-not-invertible:<family>) only when encode+decode of the assigned encoder, run through the H2 wrappers on the raw series block of an uncompressed twin of the file, is not the identity AND the twin does not show the symptom; codec invertibility itself is C08's property",
+        "signatures of symptoms that a stream class of the generator explains (record without qualities, unmapped record without bases, placed unmapped record without bases, nameless record, supplementary segment of a pair) carry that class; all other symptoms keep their plain signature",
         "a writer call that returns Err or panics is counted (writer_rejected / writer_panics) and is not a violation; TLEN of generated pairs follows SAMv1 1.4.9 (leftmost..rightmost mapped base, + for the leftmost segment, first in file on ties, 0 across references or with an unmapped segment)",
     ] {
         rep.assumptions.push(a.into());
